@@ -794,7 +794,7 @@ class Ctx:
 
     def finish(self):
         f = self.f
-        if f.gen: return "[]"
+        if f.gen: return "(Ok [])" if f.raises else "[]"
         if f.ret == 'unit': return "tt"
         raise Abort(f"{f.qual}: control reaches end of function without return")
 
@@ -812,7 +812,7 @@ class Ctx:
         if isinstance(s, ast.Return):
             if f.gen:
                 if s.value is not None: abort(s, "return value in generator")
-                return "[]"
+                return "(Ok [])" if f.raises else "[]"
             if s.value is None: abort(s, "bare return")
             inner = f.ret[1] if f.raises else f.ret
             if f.raises and isinstance(s.value, ast.Call):
@@ -833,10 +833,20 @@ class Ctx:
             return f"if {self.cond(s.test)} then\n{self.block(rest)}\nelse Err EAssert"
         if isinstance(s, ast.Expr) and isinstance(s.value, ast.Yield):
             if not f.gen: abort(s, "yield")
-            t, _ = self.expr(s.value.value, f.ret[1])
+            lt = f.ret[1] if f.raises else f.ret
+            t, _ = self.expr(s.value.value, lt[1])
+            if f.raises: return f"rcons {t} (\n{self.block(rest)})"
             return f"{t} :: (\n{self.block(rest)})"
         if isinstance(s, ast.Expr) and isinstance(s.value, ast.YieldFrom):
-            t, _ = self.expr(s.value.value, f.ret)
+            lt = f.ret[1] if f.raises else f.ret
+            g = self.callee(s.value.value) if isinstance(s.value.value, ast.Call) else None
+            if g is not None and g.raises:
+                if not f.raises: abort(s, "yield from a raising generator in a non-raising one")
+                self.allow_raising = g
+                t, _ = self.expr0(s.value.value); self.allow_raising = None
+                return f"rbind_app {t} (\n{self.block(rest)})"
+            t, _ = self.expr(s.value.value, lt)
+            if f.raises: return f"rapp {t} (\n{self.block(rest)})"
             return f"{t} ++ (\n{self.block(rest)})"
         if isinstance(s, ast.Assign):
             if len(s.targets) != 1:
@@ -1047,6 +1057,8 @@ class Ctx:
             # generator loop: body must not assign variables that live on after the iteration
             sub = Ctx(self.tr, self.f, {**self.env, v: vt})
             body = sub.block(list(s.body))
+            if self.f.raises:
+                return f"rbind_app (rflat_map (fun {v} =>\n{textwrap.indent(body, '  ')}) {src}) (\n{self.block(rest)})"
             return f"flat_map (fun {v} =>\n{textwrap.indent(body, '  ')}) {src} ++ (\n{self.block(rest)})"
         if self.has_exit(s.body): abort(s, "return inside for")
         vs = self.assigned(s.body)
